@@ -202,6 +202,13 @@ func (fc *FnCtx) call(ins ssa.Instruction, cc *ssa.CallCommon, res ssa.Value) {
 		if fc.funcParamCall(ins, cc, fv, args, setResult) {
 			return
 		}
+		for c := fc; c != nil; c = c.parent {
+			if c.c != nil && c.c.DynCall != nil {
+				fc.g.trusted["assumed: calls through function values in "+c.c.Key+" change only: "+strings.Join(c.c.DynCall.Modifies, ", ")] = true
+				setResult(fc.applyContract(ins, c.c.DynCall, c.c.Key+".dyncall", sig, nil, false, nil))
+				return
+			}
+		}
 		setResult(fc.unknownCall(ins, "dynamic call "+cc.Value.Name(), sig, false))
 		return
 	}
@@ -338,6 +345,18 @@ func (e *Env) resolveModifies(entries []string) (targets []modTarget, all bool) 
 				if gv, ok := g.cs.Ghosts[x]; ok {
 					e.ghostVal(gv)
 					targets = append(targets, modTarget{key: "G|" + x, whole: true})
+				} else if strings.HasPrefix(x, "cells(") && strings.HasSuffix(x, ")") {
+					T, _ := e.resolveType(x[6 : len(x)-1])
+					targets = append(targets, modTarget{key: g.cellKey(T), whole: true})
+				} else if strings.HasSuffix(x, ".*") {
+					T, _ := e.resolveType(strings.TrimSuffix(x, ".*"))
+					st, ok := T.Underlying().(*types.Struct)
+					if !ok {
+						cxFail("modifies * except %s: not a struct type", x)
+					}
+					for i := 0; i < st.NumFields(); i++ {
+						targets = append(targets, modTarget{key: g.fieldKey(T, i), whole: true})
+					}
 				} else {
 					cxFail("modifies * except %s: not a ghost variable", x)
 				}
